@@ -10,7 +10,7 @@ child writing into its own directory.  Oracle per schedule: all threads terminat
 schedules run in an ASan/UBSan and a ThreadSanitizer build.
 
 usage (stand-alone): c09_sched.py replay <replays/C09-*.json>"""
-import glob, json, os, subprocess, sys, time
+import glob, json, os, subprocess, sys, tempfile, time
 sys.path.insert(0, os.path.join(os.path.dirname(os.path.abspath(__file__)), '..', 'lib'))
 from vcommon import *
 import mclib
@@ -48,7 +48,10 @@ def fnv_dir(d, skip=('m.wasm', 'ref.wasm')):
     return len(names), '%x' % h
 
 
-def make_cases(tier, root):
+failed_baselines = set()
+
+
+def make_cases(tier, root, chk=None):
     """-> [dict(name, words, pb, db, expect=(files, digest))]"""
     sys.path.insert(0, os.path.dirname(os.path.abspath(__file__)))
     import c09
@@ -70,8 +73,7 @@ def make_cases(tier, root):
                 open(rp, 'wb').write(dict(c09.reference_variants(modname, m))[ref])
             words += ['-r', rp]
         # expected files: the ordinary binary, one worker thread, same other options
-        seq = os.path.join(root, 'seq-%d' % len(cases))
-        os.makedirs(seq)
+        seq = tempfile.mkdtemp(prefix='seq-', dir=root)
         seqopts = []
         skip = False
         for o in words:
@@ -82,9 +84,22 @@ def make_cases(tier, root):
             seqopts.append(o)
             if o == '-t':
                 skip = True
-        r = run([w2c2] + seqopts + [wp_, os.path.join(seq, 'm.c')], timeout=120)
-        if r.returncode != 0:
-            raise mclib.MachineryError('sequential baseline failed: %s %s' % (seqopts, r.stderr.decode()[-500:]))
+        bname = '%s %s' % (modname, ' '.join(o if not o.startswith('/') else os.path.basename(o) for o in seqopts))
+        if bname in failed_baselines:
+            return
+        try:
+            r = run([w2c2] + seqopts + [wp_, os.path.join(seq, 'm.c')], timeout=60)
+            bad = None if r.returncode == 0 else 'exit status %d: %s' % (r.returncode, r.stderr.decode(errors='replace')[-300:])
+        except subprocess.TimeoutExpired:
+            bad = 'no termination within 60 s (ordinary threads, one worker)'
+        if bad:
+            # the ordinary binary with ONE worker thread does not even produce the baseline: that is a finding about the tree, not about the machinery
+            name = '%s %s' % (modname, ' '.join(o if not o.startswith('/') else os.path.basename(o) for o in seqopts))
+            if chk is not None and name not in failed_baselines:
+                failed_baselines.add(name)
+                chk.violation('sched|sequential-run-fails', {'kind': 'config', 'w2c2_args': name, 'what': bad, 'how_to_replay': 'w2c2 %s m.wasm out.c on module %s of checks/c09.py' % (' '.join(seqopts), modname)},
+                              'w2c2 %s: %s' % (name, bad))
+            return
         nfiles, digest = fnv_dir(seq)
         cases.append({'name': '%s %s' % (modname, ' '.join(o if not o.startswith('/') else os.path.basename(o) for o in words)), 'words': words + [wp_, '@OUT@'],
                       'pb': pb, 'db': db, 'expect': (nfiles, digest), 'round': rnd})
@@ -92,8 +107,10 @@ def make_cases(tier, root):
     # 3 workers: pb 0 = 1 443 (2 files) / 8 463 (3 files), pb 1 = 138 618 (2 files); pool started twice (-r): pb 0/1 = 432 / 24 720
     # san=(pb, db) are the bounds of the ASan/UBSan and TSan builds (10-25x slower per execution)
     def both(mod, opts, pb, db, san, ref=None, rnd=0):
+        n = len(cases)
         add(mod, opts, pb, db, ref=ref, rnd=rnd)
-        cases[-1]['san'] = san
+        if len(cases) > n:
+            cases[-1]['san'] = san
     both('B2', ['-f', '1', '-t', '2'], 2, 0, (1, 0))                      # 3 functions -> 3 files, producer + 2 workers
     both('B2', ['-f', '1', '-t', '2'], 0, 1, (0, 1))                      # + one spurious wake-up
     both('B2', ['-f', '2', '-t', '3'], 0, 0, (0, 0))                      # 2 files, 3 workers (more workers than tasks)
@@ -136,7 +153,7 @@ def sched_part(chk, tier):
     flavours = ('plain', 'asan', 'tsan')
     exes = build(flavours, root)
     jobs = []
-    cases = make_cases(tier, root)
+    cases = make_cases(tier, root, chk)
     for c in cases:
         for fl in flavours:
             pb, db = (c['pb'], c['db']) if fl == 'plain' else c['san']       # sanitizer builds explore smaller bounds (see make_cases)
